@@ -238,6 +238,12 @@ class PropertyCheck:
                                                        _zlib.crc32("\n".join(scenario.lines[:40]).encode()) % 8 == 3))
         _impl_mod.SIBLING = bool(scenario.meta.get("sibling", "corpus" not in scenario.meta and
                                                    _zlib.crc32("\n".join(scenario.lines[:40]).encode()) % 6 == 0))
+        # one scenario in eight: the instance is a renamed copy `JobShopInstance(base.jobs, name=..., set_operation_attributes=False)` of an
+        # instance that labelled the operations before (a legal, rarely used way to build an instance)
+        _impl_mod.PRELABELLED = bool(scenario.meta.get("prelabelled", "corpus" not in scenario.meta and
+                                                       _zlib.crc32("\n".join(scenario.lines[:40]).encode()) % 8 == 5))
+        # (recorded, so that a replay or a corpus entry runs in the same mode)
+        scenario.meta.update({"op_subclass": _impl_mod.OP_SUBCLASS, "sibling": _impl_mod.SIBLING, "prelabelled": _impl_mod.PRELABELLED})
         impl = self.make_impl(scenario)
         outs: list[str] = []
         fails: list[Failure] = []
